@@ -1,4 +1,5 @@
 import Driver.C04
+import Driver.C02
 /-! `asldrv <mode>`: one request per input line, one answer per output line. -/
 open Driver
 
@@ -10,7 +11,8 @@ partial def loop (h : IO.FS.Stream) (out : IO.FS.Stream) (f : String → String)
 
 def modes : List (String × (String → String)) := [
   ("c04", C04.handle),
-  ("pfile", C04.handleParse)
+  ("pfile", C04.handleParse),
+  ("c02", C02.handle)
 ]
 
 def main (args : List String) : IO UInt32 := do
